@@ -157,8 +157,8 @@ S.item(
     "solve.exact",
     site=SITE,
     bound="all labelled graphs without isolated vertex on n<=4 (quick: 46) / n<=5 (thorough: 814) vertices, " + _B_REPS
-    + "; refsem state vector over EVERY combination of measurement outcomes; thorough adds graphs on 6 vertices "
-      "(all 27449, graph input, stabilizer compiler)",
+    + "; refsem state vector over EVERY combination of measurement outcomes; thorough adds 5000 seeded graphs on 6 vertices "
+      "(of 27449, graph input, stabilizer compiler)",
     exhaustive=True,
     clause="valid circuit; photons exactly the target and every emitter |0> whatever the measurement outcomes; score 0",
 )(solve_case)
@@ -166,9 +166,10 @@ S.item(
 S.item(
     "solve.exact.isolated_vertex",
     site=SITE,
-    bound="all labelled graphs WITH at least one isolated vertex on n<=4 (quick: 29) / n<=5 (thorough: 285) vertices, "
-    + _B_REPS + "; same contract as solve.exact",
-    exhaustive=True,
+    bound="fixed sample, seed-independent (touches known finding C02-F1): all 29 labelled graphs WITH an isolated vertex on "
+    "n<=4 vertices as graph input / stabilizer compiler, the 6 on n<=3 also in the other 5 input x compiler combinations "
+    "(59 cases); thorough adds every 6th of the 256 such graphs on 5 vertices (43); same contract as solve.exact",
+    exhaustive=False,
     clause="same, for targets 'connected or not, with or without isolated vertices'",
 )(solve_case)
 
@@ -176,7 +177,7 @@ S.item(
     "solve.vertex_order",
     site=SITE,
     bound="graphs on n<=4 (thorough n<=5) vertices without isolated vertex whose nodes carry labels inserted in a "
-    "non-sorted order (all 3!=6 orders n=3, 6 seeded orders per graph otherwise), graph input, both compilers",
+    "non-sorted order (all 5 non-identity orders for n=3, 2 seeded orders per graph otherwise), graph input, both compilers",
     clause="any vertex order: photon i carries the i-th vertex of the target's own order",
 )(solve_case)
 
@@ -184,7 +185,7 @@ S.item(
     "solve.generating_set",
     site=SITE,
     bound="graphs without isolated vertex n<=4 (thorough n<=5) given as stabilizer QuantumState in another generating "
-    "set M.K (signed products; all 6 M for n=2, 4 seeded invertible M per graph otherwise), stabilizer compiler",
+    "set M.K (signed products; all 5 non-identity M for n=2, 2 seeded invertible M per graph otherwise), stabilizer compiler",
     clause="target given as stabilizer QuantumState (the state, not a particular generating set, is the target)",
 )(solve_case)
 
@@ -220,7 +221,7 @@ S.item(
     "solve.exact.large",
     site=SITE,
     bound="20 fixed graphs on 7..9 vertices (signed time-reversed measurements) + seeded random graphs without isolated "
-    "vertex on 7..9 vertices (quick 160, thorough 3000), given as graph and as stabilizer QuantumState, stabilizer compiler; "
+    "vertex on 7..9 vertices (quick 160, thorough 1500; <= 4 emitters, out of reach of known finding C11-F1), given as graph and as stabilizer QuantumState, stabilizer compiler; "
     "refsem state vector (up to 13 qubits) over every combination of measurement outcomes",
     clause="same contract as solve.exact on larger targets (emitter sign corrections before mid-circuit measurements)",
 )(solve_case)
@@ -276,23 +277,47 @@ def _has_isolated(n, edges):
     return any(d == 0 for d in deg)
 
 
+def isolated_cases(tier):
+    """FIXED, VERIF_SEED-independent list for the isolated-vertex items (they hit known finding C02-F1): every labelled
+    graph with an isolated vertex on n<=4 vertices given as graph (stabilizer compiler), the n<=3 ones also in the other
+    five input/compiler combinations; thorough appends every 6th such graph on 5 vertices.  quick is a prefix of thorough."""
+    out = []
+    for n in range(1, 5):
+        for edges in _graphs(n):
+            if _has_isolated(n, edges):
+                out.append({"n": n, "edges": edges, "rep": "g", "comp": "stab"})
+    for n in range(1, 4):
+        for edges in _graphs(n):
+            if _has_isolated(n, edges):
+                for rep, comp in (("g", "dm"), ("s", "stab"), ("s", "dm"), ("dm", "stab"), ("dm", "dm")):
+                    out.append({"n": n, "edges": edges, "rep": rep, "comp": comp})
+    if tier == "thorough":
+        five = [e for e in _graphs(5) if _has_isolated(5, e)]
+        for edges in five[::6]:
+            out.append({"n": 5, "edges": edges, "rep": "g", "comp": "stab"})
+    return out
+
+
 def run(tier, seed):
     rng = np.random.default_rng(seed)
-    nmax = 4 if tier == "quick" else 5
-    plain, iso = [], []
+    thorough = tier == "thorough"
+    nmax = 5 if thorough else 4
+    S.max_failures_per_item = 400  # record every failing input (the isolated-vertex item fails on its whole list)
+    plain = []
     for n in range(1, nmax + 1):
         for edges in _graphs(n):
+            if _has_isolated(n, edges):
+                continue
             for rep in ("g", "s", "dm"):
                 for comp in ("stab", "dm"):
-                    case = {"n": n, "edges": edges, "rep": rep, "comp": comp}
-                    (iso if _has_isolated(n, edges) else plain).append(case)
-    if tier == "thorough":
-        for edges in _graphs(6):
-            if not _has_isolated(6, edges):
-                plain.append({"n": 6, "edges": edges, "rep": "g", "comp": "stab"})
+                    plain.append({"n": n, "edges": edges, "rep": rep, "comp": comp})
+    if thorough:
+        six = [e for e in _graphs(6) if not _has_isolated(6, e)]
+        for k in rng.choice(len(six), size=5000, replace=False):
+            plain.append({"n": 6, "edges": six[int(k)], "rep": "g", "comp": "stab"})
     nt = lambda i: len(i["edges"]) > 0
     S.map("solve.exact", plain, nontrivial=nt)
-    S.map("solve.exact.isolated_vertex", iso, nontrivial=nt)
+    S.map("solve.exact.isolated_vertex", isolated_cases(tier), nontrivial=nt)
 
     orders, gens, backends = [], [], []
     for n in range(2, nmax + 1):
@@ -304,15 +329,15 @@ def run(tier, seed):
                 perms = [list(p) for p in itertools.permutations(range(n))][1:]
             else:
                 perms = []
-                while len(perms) < (1 if n == 2 else 6 if tier == "thorough" or n < 4 else 2):
+                while len(perms) < (1 if n == 2 else 2):
                     p = rng.permutation(n).tolist()
                     if p != sorted(p) and p not in perms:
                         perms.append(p)
-            for p in perms:
-                for comp in ("stab", "dm"):
+            for k, p in enumerate(perms):
+                for comp in (("stab", "dm") if n <= 4 else (("stab", "dm")[k % 2],)):
                     orders.append({"n": n, "edges": edges, "rep": "g", "comp": comp, "order": p})
             # other generating sets of the same stabilizer state
-            Ms = [M for M in G.gl2(2) if M != [[1, 0], [0, 1]]] if n == 2 else [G.random_gl2(n, rng) for _ in range(4 if tier == "thorough" or n < 4 else 2)]
+            Ms = [M for M in G.gl2(2) if M != [[1, 0], [0, 1]]] if n == 2 else [G.random_gl2(n, rng) for _ in range(2)]
             for M in Ms:
                 gens.append({"n": n, "edges": edges, "rep": "s", "comp": "stab", "M": M})
             for comp in ("stab", "dm"):
@@ -321,7 +346,7 @@ def run(tier, seed):
     for n, edges in SIGNED_MEASUREMENT_TARGETS:
         for rep in ("g", "s"):
             large.append({"n": n, "edges": edges, "rep": rep, "comp": "stab"})
-    for k in range(3000 if tier == "thorough" else 160):
+    for k in range(1500 if thorough else 160):
         n = 7 + k % 3
         while True:
             A = np.triu((rng.random((n, n)) < rng.uniform(0.3, 0.9)).astype(int), 1)
@@ -335,4 +360,7 @@ def run(tier, seed):
     S.map("result.real_backends", backends, nontrivial=nt)
     S.note("oracle: refsem.core state-vector semantics (graphiq_ops + run_ops), every feasible measurement-outcome combination; "
            "graphiq's metric/compilers are used only where the statement names them (score; result.real_backends)")
+    S.note("seeded items use graphs WITHOUT isolated vertex (known finding C02-F1 is confined to solve.exact.isolated_vertex, a fixed list) "
+           "and at most 9 vertices, i.e. at most 4 emitters: stabilizer.inverse_circuit (known finding C11-F1, wrong on some states "
+           "with >= 5 entangled qubits) only ever sees an emitter block of <= 4 qubits (0 failures in 32000 embedded random blocks)")
     return S
